@@ -609,7 +609,7 @@ impl Gen {
             .sig
             .ctors
             .iter()
-            .filter(|c| c.out == s && c.args.iter().all(|t| !matches!(t, Ty::Cont(_))))
+            .filter(|c| c.out == s)
             .cloned()
             .collect();
         let apps: Vec<Ctor> = cands.iter().filter(|c| !c.args.is_empty()).cloned().collect();
@@ -648,6 +648,10 @@ impl Gen {
                 }
             }
             Ty::Cont(c) => {
+                if self.rng.chance(1, 3) {
+                    // a ground container: matchable only modulo the current equalities
+                    return self.ground(&Ty::Cont(*c), 1);
+                }
                 let ex: Vec<String> = vars
                     .iter()
                     .filter(|(_, t)| *t == Ty::Cont(*c))
@@ -889,13 +893,17 @@ impl Gen {
                         acts.push(t);
                     }
                 }
-                4 => {
+                k => {
+                    // A tuple is touched by at most one of delete / subsume / insert per
+                    // rule: the engine's order inside one iteration (deletes first) is
+                    // not promised by any property.
                     let at = ctor_atoms[self.rng.below(ctor_atoms.len())].clone();
-                    acts.push(Sexp::call("subsume", vec![at]));
-                }
-                _ => {
-                    let at = ctor_atoms[self.rng.below(ctor_atoms.len())].clone();
-                    acts.push(Sexp::call("delete", vec![at]));
+                    let touched = acts.iter().any(|a: &Sexp| {
+                        a.args().first() == Some(&at) || *a == at
+                    });
+                    if !touched {
+                        acts.push(Sexp::call(if k == 4 { "subsume" } else { "delete" }, vec![at]));
+                    }
                 }
             }
         }
